@@ -114,6 +114,22 @@ def _as_list(r):
     return [r] if isinstance(r, RuleOut) else list(r)
 
 
+THIRD_LOOK_EXCLUDED = {"R-XFER", "R-BOUNDARY"}
+
+
+def _has_new_helpers(repo):
+    v = getattr(repo, "_new_helpers", None)
+    if v is None:
+        from .inline import _known
+        kn = _known()
+        v = any((f.mod.rel, f.dqual) not in kn for m in repo.modules.values() if m.rel.startswith("amoco/") for f in m.functions.values() if f.parent is None)
+        try:
+            repo._new_helpers = v
+        except AttributeError:
+            pass
+    return v
+
+
 def two_views(repo, fn, tier, pid, known):
     """Run one rule on the functions as written; if it reports something new or loses an anchor, look a second time with the
     anchor functions' private same-file helpers expanded in place (vstat.inline).  A violation must be visible in both views:
@@ -127,6 +143,29 @@ def two_views(repo, fn, tier, pid, known):
         raw, err = None, e
     new_raw = [] if raw is None else [rep for o in raw for rep in o.reports if (pid, rep.rule, rep.key) not in known]
     if raw is not None and not new_raw:
+        # nothing reported on the functions as written.  When the tree has private helpers that did not exist at review time
+        # and this rule's anchor functions call some, the rule also looks at the expanded functions: a reset / store / test
+        # that a refactoring dropped *inside a new helper* is invisible in the first view.  Reports of this third look are
+        # kept only when an expansion really took place
+        if _has_new_helpers(repo):
+            repo.inline_view, repo.inline_hits = True, 0
+            try:
+                third = _as_list(fn(repo, tier))
+            except AnalysisError:
+                third = None
+            finally:
+                repo.inline_view = False
+            if third is not None and getattr(repo, "inline_hits", 0) > 0:
+                # rules whose reading of the expanded text produced false alarms on the recorded behaviour-preserving
+                # refactorings (def-use through expansion temporaries, comparisons re-associated by the canonicaliser) do not
+                # get a third look
+                for o in third:
+                    o.reports = [rep for rep in o.reports if (pid, rep.rule, rep.key) in known or rep.rule not in THIRD_LOOK_EXCLUDED]
+                fresh = [rep for o in third for rep in o.reports if (pid, rep.rule, rep.key) not in known]
+                if fresh:
+                    for o in third:
+                        o.what += "  [reported on the helper-expanded view: the functions as written delegate to private helpers written after the review]"
+                    return third
         return raw
     repo.inline_view = True
     try:
